@@ -31,9 +31,10 @@ func GenerateSquaresTable(limit int64) *SquaresTable {
 	// 3 squares can't produce everything, but this is compensated for
 	// so we only need to focus on n for which n == 2 (mod 4), with the
 	// tradeoff that limit is 4x as large
-	for i := int64(0); i*i <= 4*limit; i++ {
-		for j := int64(0); i*i+j*j <= 4*limit; j++ {
-			for k := int64(0); i*i+j*j+k*k <= 4*limit; k++ {
+	// the table has limit+1 entries; entry i holds the decomposition of 4i+2, so the largest value is 4*limit+2
+	for i := int64(0); i*i <= 4*limit+2; i++ {
+		for j := int64(0); i*i+j*j <= 4*limit+2; j++ {
+			for k := int64(0); i*i+j*j+k*k <= 4*limit+2; k++ {
 				v := i*i + j*j + k*k
 				if v%4 != 2 {
 					continue
